@@ -285,6 +285,11 @@ def history_batch(args):
 def run(ctx: Ctx) -> None:
     thorough = ctx.tier == "thorough"
     rnd = random.Random(ctx.seed)
+    # every row of the pick table (PickTable.tla): one process per history, forked before this process touches the library
+    from .common import FreshPool
+    from . import picktable
+    with FreshPool() as fresh:
+        ctx.evaluations += picktable.run(ctx, "C14", fresh)
     from . import jwkheap
     jwkheap.run(ctx, "C14")             # kids of keys built over shared caller dictionaries (JwkHeap.tla)
     rs = ctx.tlc_many([("KeySel", "KeySel_jws", {"timeout": 900}), ("KeySel", "KeySel_jwe", {"timeout": 900})])
@@ -370,6 +375,9 @@ def replay(ctx: Ctx, rec: dict) -> None:
     if rec.get("heap"):
         from . import jwkheap
         return jwkheap.replay(ctx, rec)
+    if "pick_history" in rec:
+        from . import picktable
+        return picktable.replay(ctx, rec)
     o = run_scn((rec["scenario"], 0))
     print(json.dumps(rec["scenario"]), "\nobserved now:", o)
     if o["outcome"].split(":")[0] not in rec.get("allowed", [o["outcome"].split(":")[0]]) or "->" in rec["signature"] and o.get("ref_ok") is False:
